@@ -26,8 +26,8 @@ def kind_of(name):
 class Check(Property):
     ID = "C06"
     PROPS_FILE = "PintModel/Props/C06.lean"
-    MODULE = "PintModel.Props.C06Conv"
-    EXTRA_PROPS_FILES = ["PintModel/Props/C06Conv.lean"]
+    MODULE = "PintModel.Props.C06Auto"
+    EXTRA_PROPS_FILES = ["PintModel/Props/C06Conv.lean", "PintModel/Props/C06Auto.lean"]
     EXTRA_LEAN_FILES = []
     RULE = ("temperature-like units of the default registry (offset, delta, absolute) and generated offset units with "
             "random rational scale/offset: every ordered pair for conversion (exhaustive), compound containers with "
@@ -419,6 +419,26 @@ class Check(Property):
                     got, ref = res(fu), res(fq)
                     if got != ref:
                         v.append(f"C06 {name} with unit = {un}, autoconvert={auto}: {got}; the quantity 1 {un} gives {ref}")
+        # a Unit as right (or left) operand of * and / stands for the quantity 1 * unit: same refusal, same value
+        for auto in (False, True):
+            r = regs.fresh("float", autoconvert_offset_to_baseunit=auto)
+
+            def res2(f):
+                try:
+                    q = f()
+                    return ("ok", round(float(q.to_root_units().magnitude), 9), str(q.to_root_units().units))
+                except Exception as exc:  # noqa: BLE001
+                    return ("err", type(exc).__name__)
+            for lm, lu in ((100.0, "kelvin"), (2.0, "joule"), (3.0, "meter"), (10.0, "degree_Celsius")):
+                for un in ("degree_Celsius", "degree_Fahrenheit", "decibel", "second"):
+                    uu = getattr(r, un)
+                    for name, fu, fq in (("Q * unit", lambda: r.Quantity(lm, lu) * uu, lambda: r.Quantity(lm, lu) * r.Quantity(1, uu)),
+                                         ("Q / unit", lambda: r.Quantity(lm, lu) / uu, lambda: r.Quantity(lm, lu) / r.Quantity(1, uu)),
+                                         ("unit * Q", lambda: uu * r.Quantity(lm, lu), lambda: r.Quantity(1, uu) * r.Quantity(lm, lu))):
+                        got, ref = res2(fu), res2(fq)
+                        if got != ref:
+                            v.append(f"C06 {name} with Q = {lm} {lu}, unit = {un}, autoconvert={auto}: {got}; with the quantity 1 {un} "
+                                     f"in its place: {ref}")
         # autoconvert mode: a compound unit holding one offset unit goes through base units WITH its other factors
         r = regs.fresh("float", autoconvert_offset_to_baseunit=True)
         for uc_, dst, want in (({"degree_Celsius": 1, "millimeter": 1, "meter": -1}, "kelvin", 0.28315),
